@@ -86,49 +86,56 @@ macro_rules! hist_arm {
         #[cfg_attr(kani, kani::stub(std::path::Path::exists, crate::stubs::path_exists_false))]
         #[cfg_attr(kani, kani::stub(std::hash::RandomState::new, crate::stubs::fixed_random_state))]
         #[cfg_attr(kani, kani::stub(std::arch::x86_64::__cpuid_count, crate::stubs::cpuid_none))]
+        #[cfg_attr(kani, kani::stub(core::slice::memchr::memchr, crate::stubs::memchr_bytewise))]
         pub fn $id() { $body }
     };
 }
 
 /// second step on the conftest: one of three versions; then the conftest's records must be those of a fresh
 /// index on the latest VALID version (an unparsable version keeps the previous one in effect).
+macro_rules! paste_ok {
+    (T_C_BAD) => { false };
+    (T_U_BAD) => { false };
+    ($other:ident) => { true };
+}
+/// one arm of the symbolic second step: analyse version $t of the conftest and compare, INSIDE the arm
+/// (a state merged over three different analyses would make every later read a symbolic pointer)
+macro_rules! c06_arm {
+    ($db:ident, $first_fresh:expr, $t:ident, $f:ident) => {{
+        note!("then {}", stringify!($t));
+        $db.analyze_file(PathBuf::from(PC), $t);
+        let want = if paste_ok!($t) { $f(PC) } else { $first_fresh(PC) };
+        check!("c06.hist.state_is_fresh_state", file_state_is(&$db, PC, &want, true));
+        std::mem::forget(want);
+    }};
+}
 macro_rules! conftest_step2 {
     ($first_text:expr, $first_fresh:expr, $a:ident, $fa:ident, $b:ident, $fb:ident, $c:ident, $fc:ident) => {{
         let db = FixtureDatabase::new();
         db.analyze_file(PathBuf::from(PC), $first_text);
         let k: u8 = any();
         assume(k < 3);
-        let want = match k {
-            0 => { note!("then {}", stringify!($a)); db.analyze_file(PathBuf::from(PC), $a); if paste_ok!($a) { $fa(PC) } else { $first_fresh(PC) } }
-            1 => { note!("then {}", stringify!($b)); db.analyze_file(PathBuf::from(PC), $b); if paste_ok!($b) { $fb(PC) } else { $first_fresh(PC) } }
-            _ => { note!("then {}", stringify!($c)); db.analyze_file(PathBuf::from(PC), $c); if paste_ok!($c) { $fc(PC) } else { $first_fresh(PC) } }
-        };
-        check!("c06.hist.state_is_fresh_state", file_state_is(&db, PC, &want, true));
+        match k { 0 => c06_arm!(db, $first_fresh, $a, $fa), 1 => c06_arm!(db, $first_fresh, $b, $fb), _ => c06_arm!(db, $first_fresh, $c, $fc) }
         reach!("c06.hist.end");
-        std::mem::forget(want); std::mem::forget(db);
+        std::mem::forget(db);
     }};
-}
-macro_rules! paste_ok {
-    (T_C_BAD) => { false };
-    (T_U_BAD) => { false };
-    ($other:ident) => { true };
 }
 fn fresh_bad(_p: &str) -> Fresh { empty_fresh() }
 
-/// @harness id=c06_f_then_rename_empty_bad props=C06,C04 unwind=24 mem=12 cap=2400
+/// @harness id=c06_f_then_rename_empty_bad props=C06,C04,C12 unwind=40 mem=12 cap=2400
 /// conftest: C_F (defines f), then symbolically one of { C_G (f renamed to g), C_EMPTY, C_BAD (unparsable) }.
 hist_arm!(c06_f_then_rename_empty_bad, conftest_step2!(T_C_F, fresh_c_f, T_C_G, fresh_c_g, T_C_EMPTY, fresh_c_empty, T_C_BAD, fresh_bad));
-/// @harness id=c06_f_then_moved_comment_same props=C06,C04 unwind=24 mem=12 cap=2400
+/// @harness id=c06_f_then_moved_comment_same props=C06,C04 unwind=40 mem=12 cap=2400
 /// conftest: C_F, then one of { C_F_MOVED (other line, a usage, plus g), C_COMMENT (parses, no statements), C_F again }.
 hist_arm!(c06_f_then_moved_comment_same, conftest_step2!(T_C_F, fresh_c_f, T_C_F_MOVED, fresh_c_f_moved, T_C_COMMENT, fresh_c_comment, T_C_F, fresh_c_f));
-/// @harness id=c06_ff_then_f_empty_ff props=C06 unwind=24 mem=12 cap=2400
+/// @harness id=c06_ff_then_f_empty_ff props=C06 unwind=40 mem=12 cap=2400
 /// conftest: C_FF (the same name defined twice), then one of { C_F, C_EMPTY, C_FF again }.
 hist_arm!(c06_ff_then_f_empty_ff, conftest_step2!(T_C_FF, fresh_c_ff, T_C_F, fresh_c_f, T_C_EMPTY, fresh_c_empty, T_C_FF, fresh_c_ff));
-/// @harness id=c06_moved_then_f_g_bad props=C06,C04 unwind=24 mem=12 cap=2400
+/// @harness id=c06_moved_then_f_g_bad props=C06,C04 unwind=40 mem=12 cap=2400
 /// conftest: C_F_MOVED (f(g), g), then one of { C_F (usage and g removed), C_G, C_BAD }.
 hist_arm!(c06_moved_then_f_g_bad, conftest_step2!(T_C_F_MOVED, fresh_c_f_moved, T_C_F, fresh_c_f, T_C_G, fresh_c_g, T_C_BAD, fresh_bad));
 
-/// @harness id=c06_two_files props=C06,C04 unwind=24 mem=12 cap=2400
+/// @harness id=c06_two_files props=C06,C04 unwind=40 mem=12 cap=2400
 /// conftest C_F and test module U_T analysed; then the test module changes to one of { U_TG, U_BAD, U_NONE };
 /// both files' records must be fresh-state, the other file untouched.
 hist_arm!(c06_two_files, {
@@ -137,56 +144,102 @@ hist_arm!(c06_two_files, {
     db.analyze_file(PathBuf::from(PU), T_U_T);
     let k: u8 = any();
     assume(k < 3);
-    let want_u = match k {
-        0 => { note!("then U_TG"); db.analyze_file(PathBuf::from(PU), T_U_TG); fresh_u_tg(PU) }
-        1 => { note!("then U_BAD"); db.analyze_file(PathBuf::from(PU), T_U_BAD); fresh_u_t(PU) }
-        _ => { note!("then U_NONE"); db.analyze_file(PathBuf::from(PU), T_U_NONE); fresh_u_none(PU) }
-    };
-    let want_c = fresh_c_f(PC);
-    check!("c06.two.test_module_is_fresh_state", file_state_is(&db, PU, &want_u, true));
-    check!("c06.two.conftest_untouched", file_state_is(&db, PC, &want_c, true));
+    macro_rules! arm { ($t:ident, $f:ident) => {{
+        note!("then {}", stringify!($t));
+        db.analyze_file(PathBuf::from(PU), $t);
+        let want_u = $f(PU);
+        let want_c = fresh_c_f(PC);
+        check!("c06.two.test_module_is_fresh_state", file_state_is(&db, PU, &want_u, true));
+        check!("c06.two.conftest_untouched", file_state_is(&db, PC, &want_c, true));
+        std::mem::forget(want_u); std::mem::forget(want_c);
+    }}; }
+    match k { 0 => arm!(T_U_TG, fresh_u_tg), 1 => arm!(T_U_BAD, fresh_u_t), _ => arm!(T_U_NONE, fresh_u_none) }
     reach!("c06.two.end");
-    std::mem::forget(want_u); std::mem::forget(want_c); std::mem::forget(db);
+    std::mem::forget(db);
+});
+
+/// @harness id=c06_same_length_edit props=C06,C15 unwind=48 mem=14 cap=3000 unwindset=memchr_bytewise:140
+/// a test module longer than 256 bytes is re-analysed with content of the SAME length whose first and last 128
+/// bytes are unchanged (a space after a comma became a newline): positions must be those of a fresh index.
+hist_arm!(c06_same_length_edit, {
+    let db = FixtureDatabase::new();
+    db.analyze_file(PathBuf::from(PU), T_L_ONE_LINE);
+    db.analyze_file(PathBuf::from(PU), T_L_TWO_LINES);
+    let want = fresh_l_two_lines(PU);
+    check!("c06.same_length.state_is_fresh_state", file_state_is(&db, PU, &want, true));
+    reach!("c06.same_length.end");
+    std::mem::forget(want); std::mem::forget(db);
 });
 
 // ------------------------------------------------------------------------------------------------ C10
 /// serial orders of {scan worker: analyze_file_fresh(F, disk)} and {didOpen: analyze_file(F, buffer)}.
 /// Afterwards the index must describe the BUFFER exactly once.
-/// @harness id=c10_scan_then_open props=C10 unwind=24 mem=12 cap=2400
+/// @harness id=c10_scan_then_open props=C10 unwind=40 mem=12 cap=2400
 /// scan visits the conftest first (disk = C_F), then didOpen with buffer in { C_G, C_F (same), C_F_MOVED }.
 hist_arm!(c10_scan_then_open, {
     let db = FixtureDatabase::new();
     db.analyze_file_fresh(PathBuf::from(PC), T_C_F);
     let k: u8 = any();
     assume(k < 3);
-    let want = match k {
-        0 => { note!("open C_G"); db.analyze_file(PathBuf::from(PC), T_C_G); fresh_c_g(PC) }
-        1 => { note!("open C_F"); db.analyze_file(PathBuf::from(PC), T_C_F); fresh_c_f(PC) }
-        _ => { note!("open C_F_MOVED"); db.analyze_file(PathBuf::from(PC), T_C_F_MOVED); fresh_c_f_moved(PC) }
-    };
-    check!("c10.scan_then_open.buffer_exactly_once", file_state_is(&db, PC, &want, true));
+    macro_rules! arm { ($t:ident, $f:ident) => {{
+        note!("open {}", stringify!($t));
+        db.analyze_file(PathBuf::from(PC), $t);
+        let want = $f(PC);
+        check!("c10.scan_then_open.buffer_exactly_once", file_state_is(&db, PC, &want, true));
+        std::mem::forget(want);
+    }}; }
+    match k { 0 => arm!(T_C_G, fresh_c_g), 1 => arm!(T_C_F, fresh_c_f), _ => arm!(T_C_F_MOVED, fresh_c_f_moved) }
     reach!("c10.scan_then_open.end");
-    std::mem::forget(want); std::mem::forget(db);
+    std::mem::forget(db);
 });
-/// @harness id=c10_open_then_scan props=C10 unwind=24 mem=12 cap=2400
+/// @harness id=c10_open_then_scan props=C10 unwind=40 mem=12 cap=2400
 /// didOpen first (buffer = C_G or C_F), then the scan worker reaches the file with the disk content C_F.
-/// The buffer must win; and one further change notification (C_F_MOVED) must restore single-analysis state.
+/// The buffer must win; and one further change notification (symbolically C_F_MOVED, or C_F = the disk text again)
+/// must restore the single-analysis state.
 hist_arm!(c10_open_then_scan, {
-    let db = FixtureDatabase::new();
-    let k: bool = any();
-    let want = if k { note!("open C_G"); db.analyze_file(PathBuf::from(PC), T_C_G); fresh_c_g(PC) }
-               else { note!("open C_F"); db.analyze_file(PathBuf::from(PC), T_C_F); fresh_c_f(PC) };
-    db.analyze_file_fresh(PathBuf::from(PC), T_C_F);
-    if crate::kf::C10_SCAN_AFTER_OPEN_OVERWRITES {
-        check!("KF:c10.open_then_scan.buffer_exactly_once", file_state_is(&db, PC, &want, true));
-    } else {
-        check!("c10.open_then_scan.buffer_exactly_once", file_state_is(&db, PC, &want, true));
+    let k: u8 = any();
+    assume(k < 4);
+    macro_rules! arm { ($open:ident, $fo:ident, $next:ident, $fn_:ident) => {{
+        let db = FixtureDatabase::new();
+        note!("open {}, scan C_F, then change {}", stringify!($open), stringify!($next));
+        db.analyze_file(PathBuf::from(PC), $open);
+        db.analyze_file_fresh(PathBuf::from(PC), T_C_F);
+        let want = $fo(PC);
+        if crate::kf::C10_SCAN_AFTER_OPEN_OVERWRITES {
+            check!("KF:c10.open_then_scan.buffer_exactly_once", file_state_is(&db, PC, &want, true));
+        } else {
+            check!("c10.open_then_scan.buffer_exactly_once", file_state_is(&db, PC, &want, true));
+        }
+        db.analyze_file(PathBuf::from(PC), $next);
+        let want2 = $fn_(PC);
+        check!("c10.open_then_scan.next_change_restores", file_state_is(&db, PC, &want2, true));
+        std::mem::forget(want); std::mem::forget(want2); std::mem::forget(db);
+    }}; }
+    match k {
+        0 => arm!(T_C_G, fresh_c_g, T_C_F_MOVED, fresh_c_f_moved),
+        1 => arm!(T_C_G, fresh_c_g, T_C_F, fresh_c_f),
+        2 => arm!(T_C_F, fresh_c_f, T_C_F_MOVED, fresh_c_f_moved),
+        _ => arm!(T_C_F, fresh_c_f, T_C_F, fresh_c_f),
     }
-    db.analyze_file(PathBuf::from(PC), T_C_F_MOVED);
-    let want2 = fresh_c_f_moved(PC);
-    check!("c10.open_then_scan.next_change_restores", file_state_is(&db, PC, &want2, true));
     reach!("c10.open_then_scan.end");
-    std::mem::forget(want); std::mem::forget(want2); std::mem::forget(db);
+});
+/// @harness id=c04_mirror_open_then_scan props=C04,C10 unwind=40 mem=12 cap=2400
+/// the test module is opened (analyze_file U_TG) and then reached by the scan with the same text
+/// (analyze_file_fresh U_TG), no edit in between: the reverse index must still mirror `usages` (no usage twice).
+hist_arm!(c04_mirror_open_then_scan, {
+    let db = FixtureDatabase::new();
+    db.analyze_file(PathBuf::from(PU), T_U_TG);
+    db.analyze_file_fresh(PathBuf::from(PU), T_U_TG);
+    let want = fresh_u_tg(PU);
+    let pb = PathBuf::from(PU);
+    let n_us = db.usages.get(&pb).map(|u| u.value().len()).unwrap_or(0);
+    let mut n_rev = 0usize;
+    for e in db.usage_by_fixture.iter() { for (fp, _u) in e.value().iter() { if fp.as_os_str().len() == PU.len() { n_rev += 1; } } }
+    note!("usages={} reverse-index entries={} fresh={}", n_us, n_rev, want.usages.len());
+    check!("c04.mirror.reverse_index_equals_usages", n_rev == n_us);
+    check!("c04.mirror.usages_are_fresh", n_us == want.usages.len());
+    reach!("c04.mirror.end");
+    std::mem::forget(want); std::mem::forget(db);
 });
 
 // ------------------------------------------------------------------------------------------------ C07
@@ -198,34 +251,34 @@ fn clear_caches(db: &FixtureDatabase) {
     db.line_index_cache.clear();
     db.ast_cache.clear();
 }
-/// @harness id=c07_warm_available props=C07 unwind=24 mem=14 cap=3000
+/// @harness id=c07_warm_available props=C07 unwind=40 mem=14 cap=3000
 /// analyse conftest C_F; WARM the per-file view of U; then the conftest changes to one of
-/// { C_EMPTY (definitions only removed), C_G (renamed), C_F_MOVED }; the warm answer must equal the answer
+/// { C_EMPTY (definitions only removed), C_G (renamed), C_F_LINE (same names, moved), C_F_MOVED }; the warm answer must equal the answer
 /// after dropping every cache (cold).
 hist_arm!(c07_warm_available, {
-    let db = FixtureDatabase::new();
-    db.analyze_file(PathBuf::from(PC), T_C_F);
-    let warm0 = db.get_available_fixtures(Path::new(PU));
     let k: u8 = any();
-    assume(k < 3);
-    match k {
-        0 => { note!("then C_EMPTY"); db.analyze_file(PathBuf::from(PC), T_C_EMPTY); }
-        1 => { note!("then C_G"); db.analyze_file(PathBuf::from(PC), T_C_G); }
-        _ => { note!("then C_F_MOVED"); db.analyze_file(PathBuf::from(PC), T_C_F_MOVED); }
-    }
-    let warm = lines_of(&db.get_available_fixtures(Path::new(PU)));
-    clear_caches(&db);
-    let cold = lines_of(&db.get_available_fixtures(Path::new(PU)));
-    note!("warm={:?} cold={:?}", warm, cold);
-    if k == 0 && crate::kf::C07_NO_VERSION_BUMP_ON_REMOVAL {
-        check!("KF:c07.available.warm_is_cold", warm == cold);
-    } else {
-        check!("c07.available.warm_is_cold", warm == cold);
-    }
+    assume(k < 4);
+    macro_rules! arm { ($t:ident, $kf:expr) => {{
+        let db = FixtureDatabase::new();
+        db.analyze_file(PathBuf::from(PC), T_C_F);
+        let warm0 = db.get_available_fixtures(Path::new(PU));
+        note!("then {}", stringify!($t));
+        db.analyze_file(PathBuf::from(PC), $t);
+        let warm = lines_of(&db.get_available_fixtures(Path::new(PU)));
+        clear_caches(&db);
+        let cold = lines_of(&db.get_available_fixtures(Path::new(PU)));
+        note!("warm={:?} cold={:?}", warm, cold);
+        if $kf && crate::kf::C07_NO_VERSION_BUMP_ON_REMOVAL {
+            check!("KF:c07.available.warm_is_cold", warm == cold);
+        } else {
+            check!("c07.available.warm_is_cold", warm == cold);
+        }
+        std::mem::forget(warm0); std::mem::forget(warm); std::mem::forget(cold); std::mem::forget(db);
+    }}; }
+    match k { 0 => arm!(T_C_EMPTY, true), 1 => arm!(T_C_G, false), 2 => arm!(T_C_F_LINE, false), _ => arm!(T_C_F_MOVED, false) }
     reach!("c07.available.end");
-    std::mem::forget(warm0); std::mem::forget(warm); std::mem::forget(cold); std::mem::forget(db);
 });
-/// @harness id=c07_close_reopen props=C07 unwind=24 mem=14 cap=3000
+/// @harness id=c07_close_reopen props=C07 unwind=40 mem=14 cap=3000
 /// analyse conftest C_F and test module U_T; close (cleanup_file_cache) either file, symbolically; resolution
 /// from the test module and its per-file view must be what they were before the close.
 hist_arm!(c07_close_reopen, {
@@ -234,12 +287,23 @@ hist_arm!(c07_close_reopen, {
     db.analyze_file(PathBuf::from(PU), T_U_T);
     let before = db.find_closest_definition(Path::new(PU), "f").map(|d| d.line);
     let av_before = lines_of(&db.get_available_fixtures(Path::new(PU)));
+    // which document is closed is the arm; the database is rebuilt per arm so that nothing is merged
+    std::mem::forget(db);
     let which: bool = any();
-    if which { note!("close conftest"); db.cleanup_file_cache(Path::new(PC)); } else { note!("close test module"); db.cleanup_file_cache(Path::new(PU)); }
-    let after = db.find_closest_definition(Path::new(PU), "f").map(|d| d.line);
-    let av_after = lines_of(&db.get_available_fixtures(Path::new(PU)));
-    check!("c07.close.resolution_unchanged", before == after);
-    check!("c07.close.view_unchanged", av_before == av_after);
+    macro_rules! arm { ($p:expr) => {{
+        let db = FixtureDatabase::new();
+        db.analyze_file(PathBuf::from(PC), T_C_F);
+        db.analyze_file(PathBuf::from(PU), T_U_T);
+        let _warm = db.get_available_fixtures(Path::new(PU));
+        note!("close {}", $p);
+        db.cleanup_file_cache(Path::new($p));
+        let after = db.find_closest_definition(Path::new(PU), "f").map(|d| d.line);
+        let av_after = lines_of(&db.get_available_fixtures(Path::new(PU)));
+        check!("c07.close.resolution_unchanged", before == after);
+        check!("c07.close.view_unchanged", av_before == av_after);
+        std::mem::forget(av_after); std::mem::forget(_warm); std::mem::forget(db);
+    }}; }
+    if which { arm!(PC) } else { arm!(PU) }
     reach!("c07.close.end");
-    std::mem::forget(av_before); std::mem::forget(av_after); std::mem::forget(db);
+    std::mem::forget(av_before);
 });
